@@ -18,7 +18,36 @@ THEOREMS = ["GmqttVerif.Broker.session_present_iff",
             "GmqttVerif.Takeover.takeover_as_is_broken"]
 COMPS = ["broker"]
 
+def gen_termrace(rng):
+    """TerminateSession of an ONLINE client while its connection takes 50-300 ms to wind down (OnClosed hook), and a CONNECT with
+    the same client id inside that window: the new connection gets a fresh session that nothing ended — it keeps its
+    subscriptions, receives, and is the one a later CONNECT finds (seed C05-4)"""
+    ops = [f"new mode=onlyonce se=600 closedelay={rng.choice([50, 150, 300])}", "conn p cp v=5 cs=1", "sub p 1 w/#|1"]
+    v = rng.choice([4, 5])
+    se = " se=300" if v == 5 else ""
+    ops.append(f"conn x1 cx v={v} cs={rng.choice([0, 1])}{se}")
+    ops.append(f"sub x1 1 t/#|{rng.choice([0, 1])}")
+    ops.append("api term cx nowait=1")
+    ops.append(f"conn x2 cx v={v} cs=0{se}")
+    ops.append(f"sub x2 2 t/a|{rng.choice([0, 1, 2])}")
+    pid, tag = 10, 0
+    for _ in range(rng.randint(1, 3)):
+        tag += 1; pid += 1
+        q = rng.choice([0, 1])
+        ops.append(f"pub p t/a q={q} pid={pid if q else 0} tag=m{tag}")
+        ops += ["ack x2 puback all", "ack x2 pubrec all", "ack x2 pubcomp all"]
+    if rng.random() < 0.6:
+        ops.append(rng.choice(["close x2", "disc x2"]))
+        ops.append(f"conn x3 cx v={v} cs=0{se}")
+        ops.append("ping x3")
+    else:
+        ops.append(f"conn x3 cx v={v} cs=0{se}")      # take-over of the survivor
+        ops.append("ping x3")
+    return ops
+
 def gen(rng):
+    if rng.random() < 0.08:
+        return gen_termrace(rng)
     return sessgen.gen_session(rng, flow=False, wills=False)
 
 def predicate(ops, out):
